@@ -805,6 +805,12 @@ pub fn do_corrupt(w: &mut World, p: usize, g: usize, msg: u64, m: &Mutation) -> 
     if bytes == orig.bytes || other.as_deref() == Some(&bytes[..]) {
         return Ok(false);
     }
+    // the genuine message followed by other bytes (a splice point in its last bytes that happens to hit equal
+    // bytes): MlsMessage::from_bytes reads one message and leaves what follows to the caller, so this is the
+    // genuine message, not a modified one (C12 checks that exactly the encoded bytes are consumed)
+    if bytes.starts_with(&orig.bytes) {
+        return Ok(false);
+    }
     let prop = w.cfg.property.clone();
     let epoch = w.epoch_of(p, g).unwrap();
     let kind = mutation_kind(m);
@@ -860,6 +866,8 @@ pub fn do_special(w: &mut World, kind: &str, a: u64, b: u64, c: u64) -> VResult<
         "observe" => crate::observer::do_observe(w, a as usize, b),
         "obs_feed" => crate::observer::do_obs_feed(w, a as usize, b),
         "x509_case" => crate::x509sim::do_x509_case(w, a, b, c),
+        "nm_propose" => do_nm_propose(w, a as usize, b as usize),
+        "xgroup" => do_xgroup(w, a as usize, b),
         "obs_snapshot" => crate::observer::do_obs_snapshot(w, a as usize),
         "obs_stale_ref" => crate::observer::do_obs_stale_ref(w, a as usize, b),
         "obs_propose" => crate::observer::do_obs_propose(w, a as usize, b, c as usize),
@@ -1963,4 +1971,156 @@ pub fn after_clear_pending(w: &mut World, p: usize, g: usize, pre: Pre) -> VResu
         }
     }
     Ok(())
+}
+
+/// An outsider proposes its own addition (sender new_member_proposal): it builds the proposal from the GroupInfo of an
+/// up-to-date member; members cache it like any proposal and a committer may commit it by reference.
+pub fn do_nm_propose(w: &mut World, q: usize, g: usize) -> VResult<bool> {
+    if g >= w.groups.len() || q >= w.parties.len() || w.parties[q].crashed || w.groups[g].reinit_at.is_some() {
+        return Ok(false);
+    }
+    if w.cfg.encrypt_handshake {
+        return Ok(false);
+    }
+    let banned = w.cfg.knob("banned").map(|_| w.parties.len() - 1);
+    if Some(q) == banned {
+        return Ok(false);
+    }
+    let st = w.mem(q, g).status.clone();
+    if !matches!(st, Status::Never | Status::Removed) || w.mem(q, g).welcome.is_some() {
+        return Ok(false);
+    }
+    if st == Status::Removed && w.multi() && !w.cfg.same_storage_rejoin {
+        return Ok(false);
+    }
+    let latest = w.groups[g].log.len() as u64;
+    if w.groups[g].members.get(&latest).map(|m| m.contains_key(&q)).unwrap_or(true) {
+        return Ok(false);
+    }
+    let Some(src) = w.live_members(g).into_iter().find(|m| w.epoch_of(*m, g) == Some(latest)) else {
+        return Ok(false);
+    };
+    let gi = {
+        let grp = w.parties[src].mems[g].group.as_ref().unwrap();
+        match grp.group_info_message(true) {
+            Ok(m) => m.to_bytes().unwrap_or_default(),
+            Err(_) => return Ok(false),
+        }
+    };
+    w.prepare_rejoin(q, g)?;
+    w.ext.twins.retain(|(p, _), _| *p != q);
+    let prop = w.cfg.property.clone();
+    let now = w.now();
+    let client = w.parties[q].client.clone();
+    let before: BTreeSet<Vec<u8>> = w.parties[q].kpstore.ids.lock().unwrap().clone();
+    let r = guarded(&prop, "external_add_proposal", || {
+        client.external_add_proposal(&MlsMessage::from_bytes(&gi)?, None, vec![], Default::default(), Default::default(), Some(now))
+    })?;
+    w.stats.op("new_member_proposal");
+    let m = match r {
+        Ok(m) => m,
+        Err(e) => {
+            return Err(Violation::new(
+                &prop,
+                "liveness",
+                format!("new-member-proposal-failed:{}", err_class(&e)),
+                format!("P{q} could not create a new-member Add proposal from P{src}'s current GroupInfo of g{g}: {e:?}"),
+            ))
+        }
+    };
+    let bytes = m.to_bytes().unwrap_or_default();
+    on_wire(w, &bytes, "proposal")?;
+    // the key package inside the proposal, so that a later Welcome can be attributed to q
+    let after: BTreeSet<Vec<u8>> = w.parties[q].kpstore.ids.lock().unwrap().clone();
+    let new_ids: Vec<Vec<u8>> = after.difference(&before).cloned().collect();
+    if let (Some(l), [kref]) = (crate::c13::public_layout(&bytes), &new_ids[..]) {
+        let mut rd = crate::refmls::Rd::new(&bytes[..l.content_end]);
+        rd.pos = l.body_start;
+        if let Some((1, a, b)) = crate::c13::skip_proposal(&mut rd) {
+            let mut kp = vec![0u8, 1, 0, 5];
+            kp.extend_from_slice(&bytes[a..b]);
+            w.kp_owner.insert(kref.clone(), (q, kp));
+        }
+    }
+    let id = w.new_msg_id();
+    w.ev(format!("new-member proposal P{q} g{g} e{latest} id={id} h={}", short_hash(&bytes)));
+    w.stats.probe("new-member-proposal");
+    let msg = Msg {
+        id,
+        g,
+        kind: MsgKind::Proposal,
+        bytes,
+        sender: q,
+        epoch: latest,
+        payload: vec![],
+        aad: vec![],
+        refs: vec![],
+        welcomes: vec![],
+        oob_tree: None,
+        external: true,
+        ext_psks: vec![],
+        res_psks: vec![],
+        private: false,
+        spec: None,
+        pspec: Some(PropSpec::Add { q }),
+        time: w.clock,
+        gen: 0,
+    };
+    w.msgs.insert(id, msg);
+    w.groups[g].props.entry(latest).or_default().push(id);
+    let members: Vec<usize> = w.groups[g].members.get(&latest).map(|m| m.keys().copied().collect()).unwrap_or_default();
+    for p in members {
+        w.mem(p, g).inbox.push(id);
+    }
+    Ok(true)
+}
+
+/// N-XGROUP: a public handshake message of one group is handed to a member of another group that is at the same
+/// epoch number. Nothing binds it to that group: it must be rejected and leave the member unchanged.
+pub fn do_xgroup(w: &mut World, p: usize, pick: u64) -> VResult<bool> {
+    if w.groups.len() < 2 || p >= w.parties.len() {
+        return Ok(false);
+    }
+    let mut cands: Vec<(usize, u64)> = vec![];
+    for gb in 0..w.groups.len() {
+        if !w.live(p, gb) {
+            continue;
+        }
+        let e = w.epoch_of(p, gb).unwrap();
+        for (id, m) in &w.msgs {
+            if m.g != gb && !m.private && m.epoch == e && matches!(m.kind, MsgKind::Proposal | MsgKind::Commit) {
+                cands.push((gb, *id));
+            }
+        }
+    }
+    if cands.is_empty() {
+        return Ok(false);
+    }
+    // proposals that carry no group context in what they sign (new members, external senders) first
+    cands.sort_by_key(|(_, id)| (!w.msgs[id].external, *id));
+    let n_ext = cands.iter().filter(|(_, id)| w.msgs[id].external).count();
+    let (gb, id) = if n_ext > 0 && pick % 2 == 0 { cands[(pick / 2) as usize % n_ext] } else { cands[(pick / 2) as usize % cands.len()] };
+    let msg = w.msgs[&id].clone();
+    let pre = before_op(w, p, gb, "process_incoming_message(message of another group)")?;
+    let keep = w.parties[p].mems[gb].group.clone();
+    let res = w.process(p, gb, &msg.bytes, "process_message_of_other_group")?;
+    w.stats.fault("N-XGROUP");
+    match res {
+        Ok(_) => {
+            w.mem(p, gb).group = keep;
+            Err(Violation::new(
+                &w.cfg.property.clone(),
+                "cross-group-replay-rejected",
+                format!("accepted-message-of-other-group:{:?}:{}", msg.kind, if msg.external { "non-member-sender" } else { "member-sender" }),
+                format!("P{p} accepted in g{gb} (epoch {}) the {:?} message {id} that was made for g{}", msg.epoch, msg.kind, msg.g),
+            ))
+        }
+        Err(e) => {
+            let cls = err_class(&e);
+            w.ev(format!("xgroup P{p} g{gb} msg={id} of g{} err {cls}", msg.g));
+            *w.stats.probes.entry(format!("xgroup:{:?}:{cls}", msg.kind)).or_default() += 1;
+            after_rejected(w, p, gb, u64::MAX, "message-of-other-group", &cls, pre)?;
+            Ok(true)
+        }
+    }
 }
